@@ -160,7 +160,12 @@ def run(model, col, tier):
         col.check(nlit > 0 and not skipping, "R13.1", f"{OOB}::_ValidateArrayExpression every constant index is compared", "all paths with a literal index evaluate the bounds test",
                   f"a path with a literal index leaves before the bounds test (conditions {skipping[0] if skipping else ''}): constant indices into some kinds of value (array / vector / matrix) are never checked", OOB, f)
         # ---- R13.2 which dimension
-        ctf = model.cls(CT, "ComputeTypeVisitor").own_method("_ProcessExpression")
+        ctv13 = model.cls(CT, "ComputeTypeVisitor")
+        ctf0 = ctv13.own_method("_ProcessExpression")
+        # the typing of an index expression may sit in a private helper of the pass (`_GetArrayAccessType`): the walk covers the
+        # expression walk and the methods of the class it calls
+        callees13 = [m for nm, m in ctv13.methods.items() if m is not ctf0 and not nm.startswith("v_") and any(isinstance(c, ast.Call) and last_attr(c) in (nm, nm.lstrip("_")) for c in ast.walk(ctf0))]
+        ctf = ast.Module(body=[ctf0] + callees13, type_ignores=[])
         dropped = None
         for n in ast.walk(ctf):
             if isinstance(n, ast.Subscript) and isinstance(n.slice, ast.Slice) and isinstance(n.value, ast.Name) and "ize" in n.value.id:
@@ -196,7 +201,7 @@ def run(model, col, tier):
         col.check(len(mparams) == 4 and any([unparse(e) for e in t.elts] == mparams[2:4] for t in tup), "R13.2", f"{TYPES}::MatrixType size tuple", "size = (rows, columns)",
                   "MatrixType no longer stores (rows, columns): GetSize()[0] is not the row count", TYPES, minit)
         col.check("GetColumnCount()" in unparse(ctf) and "VectorType" in unparse(ctf), "R13.2", f"{CT}::_ProcessExpression matrix row type",
-                  "indexing a matrix gives a vector of GetColumnCount() components", None, CT, ctf)
+                  "indexing a matrix gives a vector of GetColumnCount() components", None, CT, ctf0)
         at = model.cls(TYPES, "ArrayType").own_method("__init__")
         col.check(f"tuple({at.args.args[2].arg})" in unparse(at), "R13.2", f"{TYPES}::ArrayType keeps dimension order", "sizes are stored in declaration order", None, TYPES, at)
         asd = [P for P in G.productions if P.name == "array_size_declaration_list" and len(P.syms) == 2]
